@@ -8,6 +8,7 @@ CONSTANTS
   BugUseFlagAll = FALSE
   BugOptionalOrigState = FALSE
   BugNames = "none"
+  BugErrorState = "none"
   BugMissingIsOther = FALSE
   BugUsage = "none"
 VIEW View
